@@ -281,12 +281,18 @@ fn division(c: &DivCase, _ctx: &Ctx) -> Out {
         let (mq, mr) = nua_i.div_rem(&nb);
         eq_i(&mut out, "UBig / IBig", catch(|| &ua / &b), &mq);
         eq_u(&mut out, "UBig % IBig", catch(|| ua.clone() % &b), mr.magnitude());
-        eq_iu(&mut out, "UBig div_rem IBig", catch(|| (&ua).div_rem(b.clone())), &mq, mr.magnitude());
+        eq_iu(&mut out, "UBig div_rem IBig [ref.val]", catch(|| (&ua).div_rem(b.clone())), &mq, mr.magnitude());
+        eq_iu(&mut out, "UBig div_rem IBig [ref.ref]", catch(|| (&ua).div_rem(&b)), &mq, mr.magnitude());
+        eq_iu(&mut out, "UBig div_rem IBig [val.ref]", catch(|| ua.clone().div_rem(&b)), &mq, mr.magnitude());
+        eq_iu(&mut out, "UBig div_rem IBig [val.val]", catch(|| ua.clone().div_rem(b.clone())), &mq, mr.magnitude());
         eq_u(&mut out, "UBig %= IBig", catch(|| { let mut x = ua.clone(); x %= &b; x }), mr.magnitude());
         let (mq2, mr2) = na.div_rem(&nub_i);
         eq_i(&mut out, "IBig / UBig", catch(|| a.clone() / &ub), &mq2);
         eq_i(&mut out, "IBig % UBig", catch(|| &a % ub.clone()), &mr2);
-        eq_ii(&mut out, "IBig div_rem UBig", catch(|| (&a).div_rem(&ub)), &mq2, &mr2);
+        eq_ii(&mut out, "IBig div_rem UBig [ref.ref]", catch(|| (&a).div_rem(&ub)), &mq2, &mr2);
+        eq_ii(&mut out, "IBig div_rem UBig [ref.val]", catch(|| (&a).div_rem(ub.clone())), &mq2, &mr2);
+        eq_ii(&mut out, "IBig div_rem UBig [val.ref]", catch(|| a.clone().div_rem(&ub)), &mq2, &mr2);
+        eq_ii(&mut out, "IBig div_rem UBig [val.val]", catch(|| a.clone().div_rem(ub.clone())), &mq2, &mr2);
         eq_i(&mut out, "IBig /= UBig", catch(|| { let mut x = a.clone(); x /= &ub; x }), &mq2);
         eq_i(&mut out, "IBig %= UBig", catch(|| { let mut x = a.clone(); x %= ub.clone(); x }), &mr2);
     }
@@ -484,6 +490,108 @@ macro_rules! prim_i {
     }};
 }
 
+/// two primitive values of one type (carried as i128 bit patterns, truncated to the type)
+#[derive(Debug, Clone, Hash, Serialize, Deserialize)]
+struct PrimPair {
+    a: i128,
+    b: i128,
+    width: u8,
+    signed: bool,
+}
+
+fn prim_pair() -> impl Strategy<Value = PrimPair> {
+    (any::<i128>(), any::<i128>(), 0u8..6, any::<bool>(), 0u8..10, 0u8..10, any::<u8>()).prop_map(|(ra, rb, width, signed, sa, sb, k)| {
+        let bits = [8u32, 16, 32, 64, 128, usize::BITS][width as usize];
+        let tmin = if bits == 128 { i128::MIN } else { -(1i128 << (bits - 1)) };
+        let edge = |sel: u8, raw: i128| -> i128 {
+            match sel {
+                0 => 0,
+                1 => 1,
+                2 => -1,
+                3 => tmin,
+                4 => -(tmin + 1),
+                5 => tmin + 1,
+                6 => 1i128 << (k as u32 % (bits - 1)),
+                7 => -(1i128 << (k as u32 % (bits - 1))),
+                8 => raw % 17,
+                _ => raw,
+            }
+        };
+        let b = edge(sb, rb);
+        // dividends that are exact multiples of the divisor, one off, or unrelated
+        let a = match sa {
+            0 | 1 if b != 0 => b.wrapping_mul((ra % 9) - 4),
+            2 if b != 0 => b.wrapping_mul((ra % 9) - 4).wrapping_add(1),
+            3 if b != 0 => b.wrapping_mul((ra % 9) - 4).wrapping_sub(1),
+            _ => edge(sa, ra),
+        };
+        PrimPair { a, b, width, signed }
+    })
+}
+
+/// the division traits of dashu-base on the primitive integers: same conventions as the big types
+/// (truncated / Euclidean), judged by num-bigint on the mathematical values
+fn prim_traits(c: &PrimPair, _ctx: &Ctx) -> Out {
+    let mut out = Out::new();
+    macro_rules! run {
+        ($t:ty) => {{
+            let (a, b) = (c.a as $t, c.b as $t);
+            let (na, nb) = (BigInt::from(a), BigInt::from(b));
+            let tname = stringify!($t);
+            if b == 0 {
+                out.label("prim-traits: zero divisor (must panic)");
+                out.check(catch(|| DivRem::div_rem(a, b)).is_err(), || format!("{tname}: div_rem by zero returned"));
+                out.check(catch(|| DivRemEuclid::div_rem_euclid(a, b)).is_err(), || format!("{tname}: div_rem_euclid by zero returned"));
+            } else {
+                let (tq, tr) = na.div_rem(&nb);
+                let er = na.mod_floor(&nb.abs());
+                let eq = (&na - &er) / &nb;
+                let fits = |x: &BigInt| x >= &BigInt::from(<$t>::MIN) && x <= &BigInt::from(<$t>::MAX);
+                out.nontrivial(na.is_negative() || nb.is_negative());
+                if na.is_negative() && (&na % &nb).is_zero() {
+                    out.label("prim-traits: negative dividend, exact multiple");
+                }
+                if !fits(&tq) || !fits(&eq) {
+                    // MIN / -1: the quotient does not fit the type (overflow, as for the operators of the language)
+                    out.label("prim-traits: quotient does not fit (not judged)");
+                } else {
+                    match catch(|| DivRem::div_rem(a, b)) {
+                        Ok((q, r)) => out.check(BigInt::from(q) == tq && BigInt::from(r) == tr, || format!("{tname}: DivRem::div_rem({a}, {b}) = ({q}, {r}) want ({tq}, {tr})")),
+                        Err(m) => out.fail(format!("{tname}: DivRem::div_rem({a}, {b}) panicked: {}", normalise(&m))),
+                    }
+                    match catch(|| { let mut x = a; let r = DivRemAssign::div_rem_assign(&mut x, b); (x, r) }) {
+                        Ok((q, r)) => out.check(BigInt::from(q) == tq && BigInt::from(r) == tr, || format!("{tname}: div_rem_assign({a}, {b}) = ({q}, {r}) want ({tq}, {tr})")),
+                        Err(m) => out.fail(format!("{tname}: div_rem_assign({a}, {b}) panicked: {}", normalise(&m))),
+                    }
+                    match catch(|| (DivEuclid::div_euclid(a, b), RemEuclid::rem_euclid(a, b), DivRemEuclid::div_rem_euclid(a, b))) {
+                        Ok((q1, r1, (q2, r2))) => out.check(
+                            BigInt::from(q1) == eq && BigInt::from(r1) == er && BigInt::from(q2) == eq && BigInt::from(r2) == er,
+                            || format!("{tname}: Euclidean division of {a} by {b}: div_euclid {q1}, rem_euclid {r1}, div_rem_euclid ({q2}, {r2}); want ({eq}, {er})"),
+                        ),
+                        Err(m) => out.fail(format!("{tname}: Euclidean division of {a} by {b} panicked: {}", normalise(&m))),
+                    }
+                }
+            }
+        }};
+    }
+    match (c.signed, c.width) {
+        (false, 0) => run!(u8),
+        (false, 1) => run!(u16),
+        (false, 2) => run!(u32),
+        (false, 3) => run!(u64),
+        (false, 4) => run!(u128),
+        (false, _) => run!(usize),
+        (true, 0) => run!(i8),
+        (true, 1) => run!(i16),
+        (true, 2) => run!(i32),
+        (true, 3) => run!(i64),
+        (true, 4) => run!(i128),
+        (true, _) => run!(isize),
+    }
+    out.label(if c.signed { "prim-traits: signed" } else { "prim-traits: unsigned" });
+    out
+}
+
 fn prim_div(c: &PrimDiv, ctx: &Ctx) -> Out {
     let mut out = Out::new();
     out.nontrivial(c.p != 0 && !c.a.mag.is_zero());
@@ -503,7 +611,7 @@ fn prim_div(c: &PrimDiv, ctx: &Ctx) -> Out {
 fn main() {
     let mut ck = Check::new(
         "C02",
-        "dividends built by construction a = q·b + r from divisor classes (1 word: 1, 2^k, MAX, random; 2 words incl. 2^64..2^127 and (un)normalised; 3-32; 33-34; 35-80; thorough to 2000 words) × quotient length classes (0, 1, 2, 3-30, 31-34, 35-70) × r ∈ {0, 1, b-1, random} plus top-word-correction dividends b·2^(64k)−1, all sign combinations; every division form (/, %, div_rem, Euclidean, assign, mixed UBig/IBig, primitives, is_multiple_of(_const), ConstDivisor) compared with the identity evaluated in num-bigint; zero divisors must panic. Non-trivial: divisor >= 2 words and quotient != 0 (primitive sub: both non-zero); distinct by case digest.",
+        "dividends built by construction a = q·b + r from divisor classes (1 word: 1, 2^k, MAX, random; 2 words incl. 2^64..2^127 and (un)normalised; 3-32; 33-34; 35-80; thorough to 2000 words) × quotient length classes (0, 1, 2, 3-30, 31-34, 35-70) × r ∈ {0, 1, b-1, random} plus top-word-correction dividends b·2^(64k)−1, all sign combinations; every division form (/, %, div_rem, Euclidean, assign, mixed UBig/IBig, primitives on either side with the extreme values of each type and operands of the same / neighbouring magnitude, the division traits of dashu-base on the primitive types themselves, is_multiple_of(_const), ConstDivisor) compared with the identity evaluated in num-bigint; zero divisors must panic. Non-trivial: divisor >= 2 words and quotient != 0 (primitive sub: both non-zero); distinct by case digest.",
     );
     let th = ck.thorough();
     ck.sub("division_small", (60_000, 1_200_000), || div_case(8, 8), division);
@@ -514,19 +622,39 @@ fn main() {
         "prim_div",
         (40_000, 800_000),
         || {
-            (gen::int(Prof::Small), any::<i128>(), 0u8..6, 0u8..8).prop_map(|(a, p, width, shape)| {
+            (gen::int(Prof::Small), any::<i128>(), 0u8..6, 0u8..10, 0u8..10, any::<bool>(), any::<u8>()).prop_map(|(a, p, width, shape, rel, neg, k)| {
+                // the extreme values of the primitive type of this width (the case keeps p as an
+                // i128; `p as $t` in the macros is the identity for them)
+                let bits = [8u32, 16, 32, 64, 128, usize::BITS][width as usize];
+                let tmin = if bits == 128 { i128::MIN } else { -(1i128 << (bits - 1)) };
+                let tmax = -(tmin + 1);
                 let p = match shape {
                     0 => 1,
                     1 => -1,
-                    2 => i128::MAX,
-                    3 => i128::MIN,
+                    2 => tmax,
+                    3 => tmin,
                     4 => 2,
+                    5 => tmin + 1,
+                    6 => 1i128 << (k as u32 % (bits - 1)),
                     _ => p,
                 };
+                // the big operand next to the primitive: same magnitude, one off, the type's 2^(N-1), 2^N
+                let from_u128 = |m: u128, extra: bool| -> Nat { let mut w = vec![m as u64, (m >> 64) as u64]; if extra { w.push(1); } Nat(w) };
+                let pm = p.unsigned_abs();
+                let a = match rel {
+                    5 => Int { neg, mag: from_u128(pm, false) },
+                    6 => Int { neg, mag: from_u128(if k & 1 == 0 { pm.wrapping_add(1) } else { pm.wrapping_sub(1) }, false) },
+                    7 => Int { neg, mag: from_u128(tmin.unsigned_abs(), false) },
+                    8 => Int { neg, mag: if bits == 128 { from_u128(0, true) } else { from_u128(1u128 << bits, false) } },
+                    9 => Int { neg, mag: from_u128(tmin.unsigned_abs() + 1, false) },
+                    _ => a,
+                };
+                let a = if a.mag.is_zero() { Int { neg: false, mag: a.mag } } else { a };
                 PrimDiv { a, p, width }
             })
         },
         prim_div,
     );
+    ck.sub("prim_traits", (30_000, 600_000), prim_pair, prim_traits);
     ck.finish();
 }
